@@ -51,14 +51,15 @@ type Mode struct {
 }
 
 type Case struct {
-	Expr  *Node   `json:"expr"`
-	Mode  Mode    `json:"mode"`
-	Obs   []int   `json:"obs"`
-	Err   *int    `json:"err"`
-	After [][]int `json:"after"`
-	Panic bool    `json:"panic"`
-	Why   string  `json:"why,omitempty"`
-	Gen   string  `json:"gen,omitempty"`
+	Expr  *Node    `json:"expr"`
+	Mode  Mode     `json:"mode"`
+	Obs   []int    `json:"obs"`
+	Err   *int     `json:"err"`
+	After [][]int  `json:"after"`
+	Post  [][2]int `json:"post"` // Next() called again after it returned false: [-1,0] panic, [0,0] false, [1,v] true with Value v
+	Panic bool     `json:"panic"`
+	Why   string   `json:"why,omitempty"`
+	Gen   string   `json:"gen,omitempty"`
 }
 
 func emod(x, m int) int { return ((x % m) + m) % m }
@@ -193,9 +194,21 @@ type codeErr int
 
 func (e codeErr) Error() string { return "E" + strconv.Itoa(int(e)) }
 
+func again(it seq.Seq[int]) (o [2]int) {
+	defer func() {
+		if r := recover(); r != nil {
+			o = [2]int{-1, 0}
+		}
+	}()
+	if it.Next() {
+		return [2]int{1, it.Value()}
+	}
+	return [2]int{0, 0}
+}
+
 func run(t *Node, m Mode) (c Case) {
 	prepare(t)
-	c.Expr, c.Mode, c.Obs, c.After = t, m, []int{}, [][]int{}
+	c.Expr, c.Mode, c.Obs, c.After, c.Post = t, m, []int{}, [][]int{}, [][2]int{}
 	defer func() {
 		if r := recover(); r != nil {
 			c.Panic = true
@@ -212,6 +225,15 @@ func run(t *Node, m Mode) (c Case) {
 			c.Obs = append(c.Obs, it.Value())
 			if len(c.Obs) > limit {
 				panic("no end")
+			}
+		}
+		// outside the documented protocol (compared with the model only, never by the property oracle):
+		// what two more Next() calls answer
+		for k := 0; k < 2 && it != nil; k++ {
+			o := again(it)
+			c.Post = append(c.Post, o)
+			if o[0] < 0 {
+				break
 			}
 		}
 	default:
